@@ -686,3 +686,113 @@ Proof.
   destruct (refs (c_ptr c)) as [|v [|? ?]]; try discriminate.
   destruct (path_eqb_spec v (pf_path (c_meta c))); [subst; auto|discriminate].
 Qed.
+
+(* ---------------------------------------------------------------- acknowledged commits stay durable
+   while later transactions are rolled back *)
+Definition no_ptr_rename (c : call) : Prop := forall t, c <> Rename t PTR.
+
+Lemma check_ptr_stable : forall g c g' cp, check g c = Some g' -> no_ptr_rename c ->
+  st g PTR = Linked cp true -> st g' PTR = Linked cp true.
+Proof.
+  intros g c g' cp H Hn Hs. destruct c as [p|p w|p|p q|dd|p|dd]; simpl in H.
+  - destruct p; [discriminate|]. destruct (tmps g (T d n)); [discriminate|]. inversion H; subst. auto.
+  - destruct p; [discriminate|]. destruct (tmps g (T d n)) as [[? ?]|]; [|discriminate]. inversion H; subst. auto.
+  - destruct p; [discriminate|]. destruct (tmps g (T d n)) as [[? ?]|]; [|discriminate]. inversion H; subst. auto.
+  - destruct p; [discriminate|]. destruct q as [d' n'|]; [|discriminate].
+    destruct (tmps g (T d n)) as [[c1 [|]]|]; try discriminate.
+    match type of H with (if ?x then _ else _) = _ => destruct x; [|discriminate] end. inversion H; subst. simpl.
+    rewrite upd_s_other; auto. intro E. apply (Hn (T d n)). now rewrite <- E.
+  - inversion H; subst. simpl. rewrite Hs. destruct dd; reflexivity.
+  - destruct p as [d n|d n].
+    + match type of H with (if ?x then _ else _) = _ => destruct x eqn:E; [|discriminate] end. inversion H; subst. simpl.
+      apply andb_prop in E as [E _]. apply andb_prop in E as [E _].
+      rewrite upd_s_other; auto. intro E2. unfold PTR in E2. inversion E2; subst. simpl in E. discriminate.
+    + destruct (tmps g (T d n)); [|discriminate]. inversion H; subst. auto.
+  - inversion H; subst. auto.
+Qed.
+
+Lemma checks_ptr_stable : forall tr g g' cp, checks g tr = Some g' -> Forall no_ptr_rename tr ->
+  st g PTR = Linked cp true -> st g' PTR = Linked cp true.
+Proof.
+  induction tr as [|c tr IH]; intros g g' cp H Hf Hs; simpl in H.
+  - inversion H; subst; auto.
+  - destruct (check g c) as [g1|] eqn:E; [|discriminate]. inversion Hf; subst.
+    eapply IH; eauto. eapply check_ptr_stable; eauto.
+Qed.
+
+Lemma Forall_firstn' : forall {A} (Pr : A -> Prop) (l : list A) k, Forall Pr l -> Forall Pr (firstn k l).
+Proof.
+  intros A Pr l. induction l as [|x l IH]; intros [|k] H; simpl; try constructor; inversion H; subst; auto.
+Qed.
+
+Definition is_abort (o : op) : bool := match o with OAbort _ => true | OCommit _ => false end.
+
+Lemma publish_no_ptr : forall p c, p <> PTR -> Forall no_ptr_rename (publish_meta p c).
+Proof.
+  intros p c Hp. unfold publish_meta, gen_write_file. repeat constructor; intros t E; try discriminate.
+  inversion E; subst. auto.
+Qed.
+
+Lemma abort_no_ptr : forall its, forallb name_ok (names_of_abort its) = true -> Forall no_ptr_rename (abort_trace its).
+Proof.
+  intros its H. unfold abort_trace. apply Forall_app. split; [|apply Forall_app; split].
+  - apply Forall_forall. intros c Hc. apply in_flat_map in Hc as [it [Hit Hc]].
+    assert (Hm : mk_path it <> PTR).
+    { apply name_ok_spec. apply (forallb_In _ _ _ H). apply in_or_app. left. now apply (in_map mk_path). }
+    assert (Hf : fl_path it <> PTR).
+    { apply name_ok_spec. apply (forallb_In _ _ _ H). apply in_or_app. right. now apply (in_map fl_path). }
+    unfold pub_item in Hc. apply in_app_or in Hc as [Hc|Hc].
+    + eapply Forall_forall in Hc; [exact Hc|]. apply publish_no_ptr. exact Hm.
+    + change (publish_data (pf_path (it_file it)) (pf_content (it_file it)))
+        with (publish_meta (fl_path it) (pf_content (it_file it))) in Hc.
+      eapply Forall_forall in Hc; [exact Hc|]. apply publish_no_ptr. exact Hf.
+  - apply Forall_forall. intros c Hc. apply in_map_iff in Hc as [it [<- _]]. intros t E. discriminate.
+  - apply Forall_forall. intros c Hc. apply in_map_iff in Hc as [it [<- _]]. intros t E. discriminate.
+Qed.
+
+Lemma aborts_no_ptr : forall rest used avail, forallb is_abort rest = true -> wf_from used avail rest = true ->
+  Forall no_ptr_rename (trace_of rest).
+Proof.
+  induction rest as [|o rest IH]; intros used avail Ha Hwf; simpl in *; [constructor|].
+  apply andb_prop in Ha as [A1 A2]. apply andb_prop in Hwf as [W1 W2]. destruct o as [c|its]; [discriminate|].
+  apply Forall_app. split; [|eapply IH; eauto].
+  apply abort_no_ptr. simpl in W1. unfold wf_abort in W1.
+  apply andb_prop in W1 as [W1 _]. apply andb_prop in W1 as [W1 _]. apply andb_prop in W1 as [W1 _]. exact W1.
+Qed.
+
+Theorem acked_durable_aborts : forall ops c rest, forallb is_abort rest = true ->
+  wf (ops ++ OCommit c :: rest) = true ->
+  forall n es, (length (trace_of ops ++ commit_body c) <= n)%nat ->
+  calls_of es = firstn n (trace_of (ops ++ OCommit c :: rest)) ->
+  exists s', run fs0 es = Some s' /\ pointer (power_loss s') = Some (pf_path (c_meta c)) /\ pointer (vol s') = Some (pf_path (c_meta c)).
+Proof.
+  intros ops c rest Hab Hwf n es Hn Hes.
+  pose proof Hwf as Hwf0.
+  unfold wf in Hwf. rewrite wf_from_app in Hwf. apply andb_prop in Hwf as [W1 W2].
+  destruct (history_ok ops [] [] [] [] g0 W1 G_init (incl_refl _) (incl_refl _))
+    as [g1 [u1 [F1 [C1 [G1 [J1 [J2 _]]]]]]].
+  cbn [wf_from wf_op] in W2. apply andb_prop in W2 as [W2 W3].
+  destruct (commit_ok c _ _ u1 F1 g1 W2 G1 J1 J2) as [g2 [g3 [u3 [F3 [M3 [C2 [C3 [G2 [G3 [S2 _]]]]]]]]]].
+  set (A := trace_of ops ++ commit_body c) in *.
+  set (B := commit_cleanup c ++ trace_of rest).
+  assert (Htr : trace_of (ops ++ OCommit c :: rest) = A ++ B).
+  { rewrite trace_of_app. cbn [trace_of flat_map trace_of_op]. unfold trace_of_commit, A, B. now rewrite <- !app_assoc. }
+  destruct (wf_checks _ Hwf0) as [gF [uF [FF [CF _]]]]. rewrite Htr, checks_app in CF.
+  assert (CA : checks g0 A = Some g2) by (unfold A; rewrite checks_app, C1; exact C2).
+  rewrite CA in CF.
+  rewrite Htr, firstn_app, (firstn_all2 A) in Hes by exact Hn.
+  set (k := (n - length A)%nat) in *.
+  destruct (checks_prefix B k g2 gF CF) as [gk Ck].
+  assert (Hck : checks g0 (calls_of es) = Some gk) by (rewrite Hes, checks_app, CA; exact Ck).
+  destruct (Inv_run es g0 fs0 gk Hck Inv_init) as [s' [Hr I]]. exists s'. split; auto.
+  assert (Sk : st gk PTR = Linked (c_ptr c) true).
+  { eapply checks_ptr_stable; [exact Ck| |exact S2]. apply Forall_firstn'. unfold B. apply Forall_app. split.
+    - unfold commit_cleanup. apply Forall_forall. intros x Hx. apply in_map_iff in Hx as [it [<- _]]. intros t E. discriminate.
+    - eapply aborts_no_ptr; eauto. }
+  destruct (i_linked _ _ I 0 0 _ _ Sk) as [i [V1 V2]]. specialize (V2 eq_refl).
+  destruct (i_vol _ _ I 0 0 i V1) as [c' [b' [E1 [E2 E3]]]]. fold PTR in E1. rewrite Sk in E1. inversion E1 as [[Ec Eb]]. rewrite <- Ec in E2, E3.
+  unfold wf_commit in W2. apply andb_prop in W2 as [_ W6].
+  unfold pointer, content_at, power_loss. fold PTR in V1, V2. rewrite V1, V2, E2, E3.
+  destruct (refs (c_ptr c)) as [|v [|? ?]]; try discriminate.
+  destruct (path_eqb_spec v (pf_path (c_meta c))); [subst; auto|discriminate].
+Qed.
